@@ -79,4 +79,23 @@ PROPS = {
         "trusted_base": [],
         "assumptions": [],
     },
+    "C13": {
+        "functions_under_contract": [
+            "TimeAndDifficultyHelper::{new, enter_root_block, enter_block, exit_block, enter_stmt, exit_stmt, time, difficulty_mask, "
+            "visit_stmt_shallow} (src/passes/semantics/time_and_difficulty.rs)",
+            "LabelEmitter::{new, emit_offset_and_time_labels_with} (src/llir/raise/late.rs)",
+        ],
+        "unverified": [
+            "the Visitor that drives the helper over nested blocks and records TimeAndDifficulty per NodeId (IdMap = HashMap)",
+            "that lowering copies stmt_data.time into RawInstr.time unchanged (src/llir/lower.rs)",
+            "`+N:` where N is a non-literal constant expression: const simplification is assumed to have produced the literal (C11)",
+            "generate_label_at_offset (src/llir/raise/early.rs, BTreeSet/BTreeMap), which establishes the precondition "
+            "'a label's stated time is the previous or the new time'",
+            "statement kinds that need a CompilerContext to build (calls, assignments, loops): the frame obligation covers "
+            "NoInstruction, free block, return, interrupt label",
+        ],
+        "bounds": ["none in the times (all of i32 x i32); emitted statements per step <= 3 (unwind 4, unwinding assertions on)"],
+        "trusted_base": [],
+        "assumptions": ["every ast::Stmt built by a harness is mem::forget-ed (drop glue of the recursive AST diverges in CBMC)"],
+    },
 }
